@@ -55,7 +55,7 @@ def to_records(obs):
         elif k == "handled":
             recs.append(["handled", r[1]])
         elif k == "backend-raise":
-            recs.append(["backend-raise", r[1]])
+            recs.append(["backend-raise", r[1], r[2] if len(r) > 2 else "Exception"])      # event index, class name
         elif k == "handler-exit":
             recs.append(["handler-exit"])
         elif k in ("hang",):
@@ -107,6 +107,7 @@ class RunStream(C.Stream):
     p_interrupt = 0.0             # probability of an injected keyboard interrupt
     p_fault = 0.0                 # probability of a failing reporting backend
     p_both = 0.0                  # probability of a failing reporting backend AND a keyboard interrupt in the same run
+    p_base_fault = 0.0            # share of the backend faults that are BaseExceptions `except Exception` does not catch
     quick_cases = 60
     thorough_cases = 8000
     quick_seconds = 40
@@ -132,6 +133,9 @@ class RunStream(C.Stream):
             # the message: usual, EMPTY (str(exception) == "": a bare assert, KeyError()), starting with a line break
             text = rng.choice([FAULT_TEXT, FAULT_TEXT, FAULT_TEXT, "", "\n" + FAULT_TEXT, " "])
             case["fault"] = {"k": rng.randint(0, 40) if not both else rng.randint(0, 25), "cls": rng.choice(O.FAULT_CLASSES), "text": text}
+            if self.p_base_fault and rng.random() < self.p_base_fault:
+                # GeneratorExit / SystemExit / KeyboardInterrupt raised INSIDE a handler (on the event-handling thread)
+                case["fault"]["cls"] = rng.choice(O.BASE_FAULT_CLASSES)
         return case
 
     def impl(self, case):
@@ -180,7 +184,11 @@ class RunStream(C.Stream):
         ires = [r[0] if r[0] != "none" else None for r in obs["results"]]
         if mres != ires:
             return f"task results differ: model {mres} impl {ires}"
-        if "returned" in out and ans["any_failed"] == out["returned"]:
+        # a handler left by a BaseException `except Exception` does not catch (finding D42): the event-handling thread is
+        # dead, the report writer saw a prefix of the fired events only — the returned verdict and the report are those of
+        # that prefix (the oracle speaks about the run carrying on); the trace itself is replayed like any other
+        dead = any(r[0] == "backend-raise" and len(r) > 2 and r[2] in O.BASE_FAULT_CLASSES for r in obs["trace"])
+        if "returned" in out and ans["any_failed"] == out["returned"] and not dead:
             return f"run returned {out['returned']} but the model's failure flag is {ans['any_failed']}"
         # the two statements of the C07 grammar (Lean acceptor, Python recogniser) must agree on the fired stream
         fired = [r[2] for r in obs["trace"] if r[0] == "fire"]
@@ -191,7 +199,7 @@ class RunStream(C.Stream):
         if py_ok != lean_ok:
             return f"the two statements of the stream grammar disagree on the fired stream: Lean {lean_ok}, Python {py_ok}"
         rep = canon_report_for_model(obs.get("report"))
-        if rep is not None and "returned" in out:
+        if rep is not None and "returned" in out and not dead:
             m = R.unwire(ans["report"])
             if "writer_error" in m:
                 return "writer model error: " + m["writer_error"]
